@@ -2,6 +2,7 @@
 import Driver.Util
 import Driver.PlanJson
 import IQE.Engine.PlanWf
+import IQE.Engine.PlanQual
 open Lean IQE.Engine IQE.Engine.PlanWf
 namespace Driver.C31
 
@@ -60,6 +61,39 @@ structure Judged where
   tags : List String := []
   wfAfter : Option Bool := none
 
+/-- qualified references that do not read a field of their own qualified name (diagnostics only; the verdict is `PlanWf.qualP`) -/
+partial def misq (scopes : List Schema) : List PExpr → List String
+  | [] => []
+  | e :: es =>
+    (match e with
+     | .col (some r) name => if qualRef scopes r name then [] else
+         [s!"{r}.{name} (reads {(firstScope scopes (some r) name).bind (fun s => (resolve s (some r) name).bind (fun i => s[i]?.map (·.qname)))})"]
+     | .op _ _ args => misq scopes args
+     | .alias e' _ => misq scopes [e']
+     | .sub _ _ args _ => misq scopes args
+     | _ => []) ++ misq scopes es
+
+partial def qdiag (outer : List Schema) (p : Plan) : List String :=
+  let sch (q : Plan) := (outSchema q).map (·.qname)
+  let rep (what : String) (scope : Schema) (es : List PExpr) : List String :=
+    let u := misq (scope :: outer) es; if u.isEmpty then [] else [s!"{what}: {u} against {scope.map (·.qname)}"]
+  match p with
+  | .scan t s proj filter => rep s!"Scan {t} filter" (match proj with | some idx => projectSchema s idx | none => s) filter
+  | .filter pred i => qdiag outer i ++ rep "Filter" (outSchema i) [pred]
+  | .project exprs _ i => qdiag outer i ++ rep "Project" (outSchema i) exprs
+  | .join jt onL onR filter _ l r => qdiag outer l ++ qdiag outer r ++ rep s!"Join {repr jt} left keys" (outSchema l) onL
+      ++ rep s!"Join {repr jt} right keys" (outSchema r) onR ++ rep s!"Join {repr jt} filter" (outSchema l ++ outSchema r) filter
+  | .agg group aggs _ i => qdiag outer i ++ rep "Aggregate" (outSchema i) (group ++ aggs)
+  | .window _ w _ i => qdiag outer i ++ rep "Window" (outSchema i) w
+  | .sort keys _ i => qdiag outer i ++ rep "Sort" (outSchema i) keys
+  | .limit _ _ i => qdiag outer i
+  | .distinct i => qdiag outer i
+  | .union _ _ inputs => inputs.flatMap (qdiag outer)
+  | .alias _ _ _ i => qdiag outer i
+  | .delimJoin _ delim onL onR _ l r => qdiag outer l ++ qdiag outer r ++ rep "DelimJoin left keys" (outSchema l) (delim ++ onL) ++ rep "DelimJoin right keys" (outSchema r) onR
+  | .vsearch _ _ sortKey _ _ _ i => qdiag outer i ++ rep "VectorSearch" (outSchema i) [sortKey]
+  | _ => let _ := sch; []
+
 /-- one rule application: `after` must exist, be well-formed and keep the reported schema -/
 def judge (label : String) (before : Plan) (after : Json) : Except String (Judged × Option Plan) := do
   if let .str "same" := after then return ({ tags := [label ++ ":same"] }, some before)
@@ -68,7 +102,10 @@ def judge (label : String) (before : Plan) (after : Json) : Except String (Judge
   | .ok a =>
     let w := wf a
     let p := preserved before a
-    let f := if !w then some s!"{label}: the returned plan is not well-formed (a column reference does not resolve in its input, or an arity does not match): {(diag [] a).take 2}; {describe a}"
+    -- the qualifier check is demanded of a rule only when its input passes it (otherwise the binder is at fault, tag `bound_misqualified`)
+    let q := qualP [] a || !qualP [] before
+    let f := if w && !q then some s!"{label}: the returned plan evaluates a qualified column reference against an input that has no column of that qualified name (the executor silently falls back to another relation's column of the same bare name): {(qdiag [] a).take 2}"
+             else if !w then some s!"{label}: the returned plan is not well-formed (a column reference does not resolve in its input, or an arity does not match): {(diag [] a).take 2}; {describe a}"
              else if !p then some s!"{label}: output schema changed from {nameTy (schemaOf before)} to {nameTy (schemaOf a)}"
              else none
     pure ({ fail := f, tags := [label ++ ":changed"], wfAfter := some w }, some a)
@@ -79,7 +116,7 @@ def handler : Driver.Handler := fun c i => do
   let layout := (Driver.getStr c "layout").toOption.getD "?"
   let src := (Driver.getStr c "src").toOption.getD "?"
   let caseTags := match c.getObjValAs? (Array Json) "tags" with | .ok a => a.toList.filterMap (fun (j : Json) => j.getStr?.toOption) | .error _ => []
-  let baseTags := ["layout_" ++ layout, "src_" ++ src] ++ caseTags.filter (fun t => t.startsWith "s:")
+  let baseTags := ["layout_" ++ layout, "src_" ++ src] ++ caseTags.filter (fun t => t.startsWith "s:" || t.startsWith "shape:" || t.startsWith "f:side_" || t.startsWith "f:from_")
   if let .ok e := i.getObjValAs? String "harness_err" then throw s!"harness: {e}"
   if let .ok m := i.getObjValAs? String "panic" then throw s!"harness panic: {m}"
   match ← PlanJson.planOrErr (← Driver.getObj i "bound") with
@@ -92,7 +129,7 @@ def handler : Driver.Handler := fun c i => do
       -- the binder's own plan does not pass the checker: not a rule's fault; reported as a correspondence problem of the wf model
       return { model := Json.mkObj [("bound_wf", false), ("bound", describe bound)], k := false, nt := false, tags := baseTags ++ ["bound_not_wf"] }
     let mut fails : List String := []
-    let mut tags : List String := baseTags
+    let mut tags : List String := baseTags ++ (if qualP [] bound then [] else ["bound_misqualified"])
     let mut modelItems : List (String × Json) := []
     let mut planOf : List (String × Plan) := [("bound", bound)]
     -- each rule alone on the bound plan
